@@ -19,6 +19,18 @@
                      returned with the stale status of the enclosing request (413), so out() takes a retryable
                      failure for a non-retryable one and the batch is committed without any retry.
 
+     M_DeadQueueOnlyOnGiveUp   out() itself hands NOTHING to the dead queue: the only caller of Router.Fail is the
+                     onError callback of the RetriableBatcher (elasticsearch.go Start), which runs when the retries of a
+                     batch reported as an error are used up, and the batcher then takes the events out of the batch so
+                     that the main batcher does not commit them.  FALSE = "a non-retryable status also feeds the dead
+                     queue": in the 400/413 branch out() calls p.router.Fail for every event of the batch (when a dead
+                     queue is available) and still returns nil, so the batch it reported as a success is committed by
+                     the main batcher AND handed to -- and committed by -- the dead queue: it goes two ways.
+                     (`dqFed` = the events given to Router.Fail by out() itself, `mainCommits` = the events the
+                     RetriableBatcher leaves in the batch for the main batcher's commit after this call: all of them
+                     on nil, none yet on an error.  Modelled with a dead queue available; without one Router.Fail
+                     does nothing.  The hand-over at the give-up is GiveUpHandover.tla / Pipeline.tla.)
+
    Known deviation carried over from C19 (D14): a single event answered 413 aborts the recursion, the events to
    its right are never sent and the batch is still committed.  For C09 that is the documented non-retryable drop
    (no retry is owed); the lost coverage is C19's known finding, not judged here.                              *)
@@ -27,7 +39,8 @@ EXTENDS Integers, Sequences, FiniteSets, TLC, Json
 CONSTANTS MaxN,            \* batches of 1..MaxN events
           Answers,         \* subset of {"ok", "too_large", "bad_request", "unavailable", "transport"}
           SplitModes,      \* values of split_batch
-          M_StatusOfFailingRequest
+          M_StatusOfFailingRequest,
+          M_DeadQueueOnlyOnGiveUp
 
 VARIABLES n, split,        \* the configuration of the case
           pc,              \* start | send | split | ret | outret | done
@@ -35,9 +48,11 @@ VARIABLES n, split,        \* the configuration of the case
           rv,              \* (statusCode, err) being returned
           reqs,            \* history: <<[l, r, ans]>> -- the script as it unfolded
           accepted,        \* events covered by an ok answer
-          result           \* what out() returned: "none" | "nil_ok" | "nil_dropped" | "err"
+          result,          \* what out() returned: "none" | "nil_ok" | "nil_dropped" | "err"
+          dqFed,           \* events handed to the dead queue (Router.Fail) from inside out()
+          mainCommits      \* events left in the batch for the main batcher's commit when out() has returned
 
-vars == <<n, split, pc, stack, rv, reqs, accepted, result>>
+vars == <<n, split, pc, stack, rv, reqs, accepted, result, dqFed, mainCommits>>
 
 Retryable == {"unavailable", "transport"}
 Status(a) == CASE a = "ok" -> 200 [] a = "too_large" -> 413 [] a = "bad_request" -> 400
@@ -47,12 +62,13 @@ Init ==
   /\ n \in 1..MaxN /\ split \in SplitModes
   /\ pc = "start" /\ stack = <<>> /\ rv = [st |-> 200, err |-> FALSE]
   /\ reqs = <<>> /\ accepted = {} /\ result = "none"
+  /\ dqFed = {} /\ mainCommits = {}
 
 Start ==
   /\ pc = "start"
   /\ IF split THEN stack' = <<[l |-> 0, r |-> n, st |-> "call", code |-> 0]>> /\ pc' = "split"
               ELSE stack' = <<>> /\ pc' = "send"
-  /\ UNCHANGED <<n, split, rv, reqs, accepted, result>>
+  /\ UNCHANGED <<n, split, rv, reqs, accepted, result, dqFed, mainCommits>>
 
 (* send(data.outBuf): one request for the whole batch *)
 Send ==
@@ -62,7 +78,7 @@ Send ==
        /\ accepted' = IF a = "ok" THEN 1..n ELSE accepted
        /\ rv' = [st |-> Status(a), err |-> a # "ok"]
   /\ pc' = "outret"
-  /\ UNCHANGED <<n, split, stack, result>>
+  /\ UNCHANGED <<n, split, stack, result, dqFed, mainCommits>>
 
 Top == stack[Len(stack)]
 Pop == SubSeq(stack, 1, Len(stack) - 1)
@@ -85,7 +101,7 @@ SplitCall ==
                         /\ rv' = rv /\ pc' = "split"
                    ELSE \* a single event that is too large, 400, 5xx, transport error: return statusCode, err
                         rv' = [st |-> Status(a), err |-> TRUE] /\ stack' = Pop /\ pc' = "ret"
-  /\ UNCHANGED <<n, split, result>>
+  /\ UNCHANGED <<n, split, result, dqFed, mainCommits>>
 
 (* a sendSplit call returned rv to its caller *)
 SplitRet ==
@@ -98,12 +114,17 @@ SplitRet ==
        ELSE \* return p.sendSplit(middle, right, ...)
             /\ stack' = Append(Pop, [l |-> (Top.l + Top.r) \div 2, r |-> Top.r, st |-> "call", code |-> 0])
             /\ pc' = "split" /\ rv' = rv
-  /\ UNCHANGED <<n, split, reqs, accepted, result>>
+  /\ UNCHANGED <<n, split, reqs, accepted, result, dqFed, mainCommits>>
 
 (* the classification at the end of out() *)
 OutReturn ==
   /\ pc = "outret"
   /\ result' = IF ~rv.err THEN "nil_ok" ELSE IF rv.st \in {400, 413} THEN "nil_dropped" ELSE "err"
+  \* the 400/413 branch: log and return nil -- nothing else (the mutant: batch.ForEach(p.router.Fail) first)
+  /\ dqFed' = IF ~M_DeadQueueOnlyOnGiveUp /\ rv.err /\ rv.st \in {400, 413} THEN 1..n ELSE {}
+  \* RetriableBatcher.Out: err == nil -> return, the batch keeps its events and the main batcher commits them;
+  \* err != nil -> retried / given up, nothing is committed on account of THIS call
+  /\ mainCommits' = IF result' = "err" THEN {} ELSE 1..n
   /\ pc' = "done"
   /\ UNCHANGED <<n, split, stack, rv, reqs, accepted>>
 
@@ -144,6 +165,15 @@ FailureEndsAttempt ==
   \A i \in DOMAIN reqs : (i < Len(reqs)) =>
      \/ reqs[i].ans = "ok"
      \/ reqs[i].ans = "too_large" /\ split /\ reqs[i].r - reqs[i].l > 1
+
+\* (d) a batch goes one way: a call of out() that reports success (accepted, or the deliberate 400/413 drop) hands
+\*     nothing to the dead queue and leaves every event to the main batcher's single commit; a call that reports
+\*     an error hands nothing over either -- the dead queue is fed by the give-up alone, after the retries
+DeadQueueOnlyOnGiveUp ==
+  /\ dqFed \cap mainCommits = {}
+  /\ pc = "done" => /\ dqFed = {}
+                    /\ result # "err" => mainCommits = 1..n
+                    /\ result = "err" => mainCommits = {}
 
 -----------------------------------------------------------------------------
 ExportRec == [n |-> n, split |-> split,
